@@ -30,7 +30,7 @@ class CheckC08(core.Check):
     cfg = "A"
     rule = (
         "case = batch of sessions of one protocol name in which exactly one context item differs between the peers (name component of "
-        "equal length, psk modifier order, one prologue bit / length / presence, one bit of one PSK, a different valid pre-shared static "
+        "equal length, psk modifier order, one prologue bit / length / presence incl. prologues that differ only beyond byte 65535, one bit of one PSK, a different valid pre-shared static "
         "key on either side incl. the 25519 key differing only in bit 255) or a random pair of such items; whoever has the turn writes, "
         "the other reads, until an error or both finished; oracle: never both finished without an error, and no transport message accepted; "
         "distinct key = (pattern+psk variant, DH, differing item(s)); non-trivial = both parties were built and exchanged at least one message"
@@ -69,6 +69,10 @@ class CheckC08(core.Check):
         items.append(("prologue-shorter", {"prologue": pl[:-1]}, {"prologue": pl}))
         items.append(("prologue-absent", {"prologue": pl}, {}))
         items.append(("prologue-empty-vs-byte", {"prologue": b""}, {"prologue": b"\x00"}))
+        # prologues longer than a Noise message: every byte counts, also beyond 65535
+        lp = rnd.choice([65535, 65536, 70001])
+        items.append(("prologue-long-vs-longer", {"prologue": "gen:%d:lp" % lp}, {"prologue": "gen:%d:lp~ext:00" % lp}))
+        items.append(("prologue-long-last-bit", {"prologue": "gen:%d:lp" % (lp + 1)}, {"prologue": "gen:%d:lp~xor:%d:01" % (lp + 1, lp)}))
         for n in parsed.psks:
             bad = dict(keys.psks)
             bad[n] = flipbit(bad[n], rnd.randrange(256))
